@@ -73,7 +73,7 @@ NONE = {"none": True}
 LLSD_DOCS = [
     (bytes([105, 0, 0, 0, 7]), 7),
     (bytes([91, 0, 0, 0, 2, 105, 0, 0, 0, 1, 115, 0, 0, 0, 1, 97, 93]), [1, "a"]),
-    (bytes([33]), None),
+    (bytes([48]), False),
     (bytes([115, 0, 0, 0, 2, 104, 105]), "hi"),
     (bytes([123, 0, 0, 0, 1, 107, 0, 0, 0, 1, 107, 49, 125]), {"k": True}),
 ]
